@@ -108,9 +108,9 @@ func (p *Proc) exchange(script string, timeout time.Duration) ([]string, error) 
 
 type SolverStats struct {
 	Queries, CacheHits, Sat, Unsat, Unknown, Errors int64
-	Nanos                                            int64
-	Cvc5Queries, Cvc5Wins                            int64
-	SlowestMs                                        int64
+	Nanos                                           int64
+	Cvc5Queries, Cvc5Wins                           int64
+	SlowestMs                                       int64
 }
 
 var gStats SolverStats
@@ -125,8 +125,8 @@ var queryCache = &queryCacheT{m: map[string]string{}}
 // Solver is owned by one worker goroutine.
 type Solver struct {
 	z3, z3inc, cvc5 *Proc
-	timeout  time.Duration
-	dumpDir  string
+	timeout         time.Duration
+	dumpDir         string
 }
 
 func newSolver() *Solver { return &Solver{timeout: time.Duration(gCfg.QueryTimeoutS) * time.Second} }
